@@ -197,13 +197,16 @@ class MultiFileOpen(Contract):
     target = GRD + '::pncmfopen'
     uses = [OpenRecorder()]
 
-    def __init__(self, n):
-        self.n = n
-        self.name = 'pncmfopen[%d paths]' % n
+    def __init__(self, n, repeat=False):
+        self.n, self.repeat = n, repeat
+        self.name = 'pncmfopen[%d paths%s]' % (n, ', the first one named again at the end' if repeat else '')
 
     def inputs(self, ctx, I):
         from pyvc.arrays import AbsStr
         self.paths = [AbsStr(ctx.fresh('path%d' % i)) for i in range(self.n)]
+        if self.repeat:
+            # the same path (the very same string) listed twice: it is opened twice and stacked twice
+            self.paths[-1] = self.paths[0]
         self.dim = AbsStr(ctx.fresh('stackdim'))
         return dict(paths=list(self.paths), stackdim=self.dim, kwds=dict(format='netcdf'))
 
@@ -228,10 +231,13 @@ class MultiFileOpen(Contract):
 
 
     def concretize(self, model, inp):
-        return dict(n=self.n)
+        # which of the abstract paths the counter-model makes equal (same number = same path)
+        from pyvc.verify import model_value
+        ids = [str(model_value(model, p.sid)) for p in self.paths]
+        return dict(n=self.n, repeat=self.repeat, same_as=[ids.index(x) for x in ids])
 
     def concretize_without_model(self, inp):
-        return dict(n=self.n)
+        return dict(n=self.n, repeat=self.repeat)
 
     def replay(self, c):
         """real files whose alphabetical order differs from the argument order, through the real pncmfopen"""
@@ -240,24 +246,41 @@ class MultiFileOpen(Contract):
         import_real()
         from PseudoNetCDF import pncmfopen
         names = ['piece_9.nc', 'piece_10.nc', 'a_last.nc', 'zz.nc'][:max(2, int(c['n']))]
-        d = tempfile.mkdtemp(prefix='verif_c04_')
-        try:
-            paths, exp = [], []
-            for k, nm in enumerate(names):
-                p = os.path.join(d, nm)
-                ds = netCDF4.Dataset(p, 'w', format='NETCDF3_CLASSIC')
-                ds.createDimension('t', None)
-                ds.createVariable('t', 'd', ('t',))[:] = [10. * k, 10. * k + 1]
-                ds.close()
-                paths.append(p)
-                exp += [10. * k, 10. * k + 1]
-            got = np.asarray(pncmfopen(paths, stackdim='t', format='netcdf').variables['t'][:]).tolist()
-            return got == exp, dict(paths=[os.path.basename(p) for p in paths], stacked_t=got, expected=exp)
-        finally:
-            shutil.rmtree(d, ignore_errors=True)
+        n = len(names)
+        base = [0, 1, 0][:n] if c.get('repeat') else list(range(n))
+        # the path equalities of the counter-model first (a model may also make paths equal without need), then the instance as stated
+        cands = [x for x in (c.get('same_as'), base) if x]
+        out = None
+        for same in cands:
+            d = tempfile.mkdtemp(prefix='verif_c04_')
+            try:
+                paths, exp = [], []
+                for k, nm in enumerate(names):
+                    if k < len(same) and same[k] < k:
+                        paths.append(paths[same[k]])
+                        exp += exp[2 * same[k]:2 * same[k] + 2]
+                        continue
+                    p = os.path.join(d, nm)
+                    ds = netCDF4.Dataset(p, 'w', format='NETCDF3_CLASSIC')
+                    ds.createDimension('t', None)
+                    ds.createVariable('t', 'd', ('t',))[:] = [10. * k, 10. * k + 1]
+                    ds.close()
+                    paths.append(p)
+                    exp += [10. * k, 10. * k + 1]
+                try:
+                    got = np.asarray(pncmfopen(paths, stackdim='t', format='netcdf').variables['t'][:]).tolist()
+                except Exception as e:
+                    return False, dict(paths=[os.path.basename(p) for p in paths], raised=type(e).__name__, message=str(e)[:160])
+                r = (got == exp, dict(paths=[os.path.basename(p) for p in paths], stacked_t=got, expected=exp))
+                if not r[0]:
+                    return r
+                out = out or r
+            finally:
+                shutil.rmtree(d, ignore_errors=True)
+        return out
 
 
-CONTRACTS += [MultiFileOpen(2), MultiFileOpen(4)]
+CONTRACTS += [MultiFileOpen(2), MultiFileOpen(4), MultiFileOpen(3, repeat=True)]
 
 
 def compositions(n, kmax):
@@ -498,7 +521,7 @@ def bounded_replay(p):
 META = dict(
     level='other',
     technique='stack proved by pyvc for 2 and 3 files of arbitrary sizes (numpy.ma.concatenate as trusted end-to-end model), with the split/stack inverse as a '
-              'corollary of the contract; pncmfopen proved to open its paths and stack them in argument order (modular: pncopen / stack as recording summaries); '
+              'corollary of the contract; pncmfopen proved to open every list entry (a path named twice is opened twice) and stack them in argument order (modular: pncopen / stack as recording summaries); '
               'masks, attributes of pieces, stack_files / open_mfdataset and slice(stack) by bounded run-time contract',
     text='Proved for 2 or 3 files whose stack dimension has ANY lengths (including 0) and a shared dimension of any length: the stacked length is the sum, every element of '
          'every variable with the dimension is the corresponding piece element in ARGUMENT ORDER, variables without it come from the first file, attributes and flags '
